@@ -37,6 +37,8 @@ func runC05(c *Ctx) {
 	checkGeneratedSkipped(c, "R05f")
 	c.Rule("R05g", ruleTextSkipFKsMonotone, 1)
 	checkSkipFKsMonotone(c, "R05g")
+	c.Rule("R05i", ruleTextTxOpenerRegistered, 2)
+	checkTxOpenerRegistered(c, "R05i")
 	c.Rule("R05h", ruleTextSqliteBegin, 1)
 	checkSqliteBeginOwner(c, "R05h")
 	checkAlterable(c, "R05c")
